@@ -482,6 +482,33 @@ fn judge(backend: &str, pre: &Tree, post: &Tree, path: &str, op: &Op, res: &Call
     // selected entries changed, and selected entries hold the old or the requested value"
     let strict = !plan.looped && sym_ok && !failed;
 
+    // octal for one kind plus an expression whose first clause is malformed: when some selected entry needs the
+    // expression (no octal value for its kind), the call reports an error and changes nothing - whatever it
+    // could already have applied to entries of the other kind
+    if let Some(Act::Mixed { dirs, files, sym }) = &act {
+        if parse_expr(sym).is_none() && !plan.looped {
+            let needs_expr = plan.targets.keys().any(|p| match pre.nodes.get(p) {
+                Some(n) if n.is_dir() => *dirs == 0,
+                Some(n) if n.is_file() => *files == 0,
+                _ => false,
+            });
+            if needs_expr {
+                if !failed {
+                    return Some(Verdict { sig: format!("{} {} · malformed first clause not rejected", backend, fam), detail: head() });
+                }
+                if let Some((p, _)) = pre.nodes.iter().find(|(p, n)| post.nodes.get(*p) != Some(*n)) {
+                    return Some(Verdict {
+                        sig: format!("{} {} · malformed first clause rejected but state changed", backend, fam),
+                        detail: format!("{}; {} was {:?} and is now {:?}", head(), p, pre.nodes[p], post.nodes.get(p)),
+                    });
+                }
+                return None;
+            }
+            // no selected entry needs the expression: whether it is parsed at all is left open
+            return None;
+        }
+    }
+
     if pre.nodes.keys().ne(post.nodes.keys()) {
         return Some(Verdict {
             sig: format!("{} {} · set of entries changed", backend, fam),
@@ -1185,6 +1212,9 @@ fn chmod_ops() -> Vec<Op> {
         v.push(Op::ChmodB { recurse, follow: false, act: Act::Mixed { dirs: 0o700, files: 0, sym: "f:a-w".into() } });
         v.push(Op::ChmodB { recurse, follow: false, act: Act::Mixed { dirs: 0, files: 0o600, sym: "d:go+w".into() } });
         v.push(Op::ChmodB { recurse, follow: false, act: Act::Mixed { dirs: 0o711, files: 0o640, sym: "a:a=rwx".into() } });
+        // ... and with a malformed first clause: an error, and nothing changed, wherever the expression is needed
+        v.push(Op::ChmodB { recurse, follow: false, act: Act::Mixed { dirs: 0, files: 0o600, sym: ":u+x".into() } });
+        v.push(Op::ChmodB { recurse, follow: false, act: Act::Mixed { dirs: 0o700, files: 0, sym: "f:u+q".into() } });
     }
     v
 }
